@@ -539,6 +539,10 @@ func findPrefixesCore(node *RegexNode, res *[]*bytes.Buffer, ignoreCase bool) bo
 		// As with One and loops, set loops are handled the same as sets up to the min iteration limit.
 		case NtSet, NtSetloop, NtSetlazy, NtSetloopatomic:
 
+			// GetSetChars also lists the characters of a negated set, which are the ones it excludes
+			if node.Set.IsNegated() {
+				return false
+			}
 			setChars := node.Set.GetSetChars(maxPrefixes)
 
 			if len(setChars) == 0 {
